@@ -110,6 +110,14 @@ def spec_apply(meta, req):
     return out, unjudged
 
 
+def _canonical(raw):
+    try:
+        refspec.strict_decode(raw)
+        return True
+    except refspec.BErr:
+        return False
+
+
 def run_case(run, drv, case_seed, max_len):
     rng = random.Random(case_seed)
     with sandbox("c07") as box:
@@ -149,6 +157,17 @@ def run_case(run, drv, case_seed, max_len):
                     bad = f"hash-bearing key {k!r} changed"
             if before.get(b"piece layers") != after.get(b"piece layers"):
                 bad = "piece layers changed"
+            if not bad and _canonical(raw0):
+                # "the file equals the original with each named field set": byte for byte, i.e.
+                # the canonical encoding of the expected dictionary (the original was canonical)
+                exp = dict(want)
+                for k in unjudged:
+                    exp.pop(k, None)
+                    if k in after:
+                        exp[k] = after[k]
+                if refspec.encode(exp) != raw1:
+                    bad = "the edited file is not the original with the named fields changed (bytes differ " \
+                          "although every decoded value is as expected: key order / encoding)"
             if bad:
                 run.fail("impl-vs-spec", dict(case, step=step), {"why": bad})
                 break
